@@ -54,6 +54,38 @@ def make_work(rng, tier):
                         runs.append((q, {"partitions": rng.choice([1, 2]), "enable_optimizer": bool(rng.below(2))}))
         work.append({"id": "c09-quant-%d" % i, "tables": tables, "runs": runs, "mode": "det", "det_partitions": 2,
                      "sched": {"kind": "fifo", "seed": 1}})
+    # directed family: one CTE (plain and MATERIALIZED) referenced from two different blocks with a filter on one
+    # reference only (what one reference filters must not change what the other reference sees)
+    ncte = 2 if tier == "quick" else 12
+    for i in range(ncte):
+        rows = [["I%d" % rng.choice([1, 2, 3, 4, 5]), rng.choice(["I0", "I1", "N"])] for _ in range(rng.choice([5, 8]))]
+        tables = [("t0", [("c0", "i32"), ("c1", "i32")], rows)]
+        C = "(select (fq (table 0)) - - - ((col 0 0) (col 0 1)) 0)"
+        runs = []
+        for mat in (True, False):
+            w = "WITH c AS %s(SELECT t.c0 AS o0, t.c1 AS o1 FROM t0 AS t) " % ("MATERIALIZED " if mat else "")
+            k = rng.choice([1, 2, 3])
+            k2 = rng.choice([3, 4, 5])
+            qs = [
+                (w + "SELECT x.o0 AS r0, (SELECT count(*) AS o0 FROM c AS y) AS r1 FROM c AS x WHERE (x.o0 <= %d)" % k,
+                 "(select (fq %s) (cmp le (col 0 0) (const (i %d))) - - ((col 0 0) (scalar (select (fq %s) - (() ((countstar 0 (const N)))) - ((col 0 0)) 0))) 0)" % (C, k, C),
+                 ["i32", "i64"]),
+                (w + "SELECT x.o0 AS r0, x.o1 AS r1 FROM c AS x WHERE (x.o0 <= %d) UNION ALL SELECT y.o0 AS r0, y.o1 AS r1 FROM c AS y WHERE (y.o0 >= %d)" % (k, k2),
+                 "(union 1 (select (fq %s) (cmp le (col 0 0) (const (i %d))) - - ((col 0 0) (col 0 1)) 0) (select (fq %s) (cmp ge (col 0 0) (const (i %d))) - - ((col 0 0) (col 0 1)) 0))" % (C, k, C, k2),
+                 ["i32", "i32"]),
+                (w + "SELECT x.o0 AS r0, x.o1 AS r1 FROM c AS x WHERE ((x.o0 <= %d) AND (EXISTS (SELECT y.o0 AS o0 FROM c AS y WHERE (y.o0 = (x.o0 + 1)))))" % k2,
+                 "(select (fq %s) (and (cmp le (col 0 0) (const (i %d))) (exists 0 (select (fq %s) (cmp eq (col 0 0) (arith add 32 (col 1 0) (const (i 1)))) - - ((col 0 0)) 0))) - - ((col 0 0) (col 0 1)) 0)" % (C, k2, C),
+                 ["i32", "i32"]),
+                (w + "SELECT x.o0 AS r0, (SELECT max(y.o0) AS o0 FROM c AS y WHERE (y.o1 = x.o1)) AS r1 FROM c AS x WHERE (x.o0 >= %d)" % k,
+                 "(select (fq %s) (cmp ge (col 0 0) (const (i %d))) - - ((col 0 0) (scalar (select (fq %s) (cmp eq (col 0 1) (col 1 1)) (() ((max 0 (col 0 0)))) - ((col 0 0)) 0))) 0)" % (C, k, C),
+                 ["i32", "i32"]),
+            ]
+            for sql, sx, tys in qs:
+                q = sqlgen.Q(sql, sx, tys, ["r0", "r1"], {"cte", "cte_def", "cte_twice"} | ({"cte_materialized"} if mat else set()))
+                for opt in (True, False):
+                    runs.append((q, {"partitions": rng.choice([1, 2]), "enable_optimizer": opt}))
+        work.append({"id": "c09-cte2-%d" % i, "tables": tables, "runs": runs, "mode": "det", "det_partitions": 2,
+                     "sched": {"kind": "fifo", "seed": 1}})
     return work
 
 
